@@ -7,6 +7,7 @@ import (
 	"sort"
 	"strings"
 
+	client "github.com/wundergraph/graphql-go-tools/v2/pkg/engine/datasource/graphql_datasource/subscriptionclient"
 	"github.com/wundergraph/graphql-go-tools/v2/pkg/engine/datasource/graphql_datasource/subscriptionclient/common"
 
 	"verif/harness/pbt"
@@ -81,6 +82,17 @@ func (w *world) endedDuringSubscribe(k, i int) []int {
 	return out
 }
 
+// earlyExpired is earlyCancelled restricted to subscribers that left through their own deadline.
+func (w *world) earlyExpired(k, i int) []int {
+	var out []int
+	for _, j := range w.earlyCancelled(k, i) {
+		if w.subs[j].expired {
+			out = append(out, j)
+		}
+	}
+	return out
+}
+
 // earlyCancelled lists the WebSocket subscriptions of tuple k (other than i) whose cancel was issued
 // before their Subscribe call had returned.
 func (w *world) earlyCancelled(k, i int) []int {
@@ -121,6 +133,10 @@ func judge(o *outcome) []viol {
 		// --- Subscribe result
 		if st.err != nil && !st.cancelIssued && !st.dropInSub && !lenient {
 			switch {
+			case errors.Is(st.err, client.ErrInitFailed) && !sse && len(w.earlyExpired(k, i)) > 0:
+				// not one of the recorded findings: a dialler that leaves through its own DEADLINE makes
+				// protocol.Init report ErrAckTimeout (no context error in the chain)
+				add("", "sub %d: Subscribe failed with %q although its own context is alive and the upstream acknowledged the connection as soon as its gate opened; sub(s) %v with the same option tuple ran into their own context deadline before their Subscribe call had returned (one of them was dialling for everybody)", i, st.err, w.earlyExpired(k, i))
 			case errors.Is(st.err, context.Canceled) && len(w.earlyCancelled(k, i)) > 0 && !sse:
 				add(fDialCtx, "sub %d: Subscribe failed with %q although its own context is alive; sub(s) %v with the same option tuple were cancelled before their own Subscribe call had returned (one of them was dialling for everybody)", i, st.err, w.earlyCancelled(k, i))
 			case st.err == common.ErrConnectionClosed && !sse && len(w.endedDuringSubscribe(k, i)) > 0 && !(w.killed(k) && len(w.earlyCancelled(k, i)) > 0): //nolint:errorlint
